@@ -5,6 +5,8 @@ CONSTANTS
     MaxAllocs = 4
     MaxWrites = 12
     Schemas = {"plain", "strings", "nested", "topdict", "dict_struct", "dict_list", "dict_map", "dict_deep", "mixed", "mixed_nested"}
+    ColClasses = {"p", "s", "n", "t", "d"}
+    MaxCols = 2
     RowClasses = {"zero", "one", "many"}
     MdClasses = {"none", "some", "collide"}
     PtrClasses = {"exact", "nonnum_off", "nonnum_len", "empty_off", "empty_len", "missing_len", "neg_off", "neg_len", "huge_off", "huge_len", "wrap_sum", "off_gt_half", "len_near_half", "beyond_end", "at_end", "past_end", "in_header", "len0", "short", "long"}
